@@ -491,8 +491,17 @@ func subBFS(c *explore.Ctx, clients, filters []string, opts []int, topics []stri
 				applySubOp(c, st, ref, ops[p], i == len(path)-1, hist, "mem")
 			}
 			key := statekey.Dump(st, "Stats.SubscriptionsTotal")
-			if !seenState[key] {
-				seenState[key] = true
+			// the battery runs for every new (implementation state, reference table) pair: an
+			// operation that wrongly leaves the store unchanged reaches a known store state
+			// with a different reference
+			var rk []string
+			for k, r := range ref.m {
+				rk = append(rk, k+"="+subStr(r.Client, &r.Sub))
+			}
+			sort.Strings(rk)
+			bk := key + "|" + strings.Join(rk, ";")
+			if !seenState[bk] {
+				seenState[bk] = true
 				battery(st, ref, hist)
 			}
 			return key, true
